@@ -663,3 +663,173 @@ func selSumWorkload(count map[string]int) *Workload {
 		ShrinkEvals: 100,
 	}
 }
+
+// ---------------------------------------------------------------- C01: an input file shrinks under the running binary
+//
+// A storage fault: while the binary is blocked on an earlier input (a named
+// pipe the harness feeds), a later input file that it has already opened is
+// truncated by another process. Whatever the binary makes of the shorter file,
+// it ends by itself: status 0, or non-zero with a diagnostic; never a signal
+// or a runtime crash.
+
+type ShrinkCase struct {
+	Elems   int    `json:"elems"`    // elements of the big array (each 8 bytes)
+	NewSize int    `json:"new_size"` // size the file is truncated to
+	Prog    string `json:"prog"`
+}
+
+func runShrinkCase(c *ShrinkCase, keep bool) Outcome {
+	log := newEventLog(keep)
+	o := Outcome{Probes: map[string]int{}, Faults: map[string]int{}, Nontrivial: true}
+	finish := func() Outcome {
+		o.LogHash, o.Log, o.Steps = log.Hash(), log.lines, log.seq
+		return o
+	}
+	if jqawkBin() == "" {
+		o.Class, o.Msg = "harness", "SIM_JQAWK not set"
+		return finish()
+	}
+	n := atomic.AddInt64(&procCounter, 1)
+	dir := filepath.Join(procScratch(), fmt.Sprintf("shrink-%d-%d", os.Getpid(), n))
+	if err := os.MkdirAll(dir, 0o755); err != nil {
+		o.Class, o.Msg = "harness", err.Error()
+		return finish()
+	}
+	defer os.RemoveAll(dir)
+	var sb strings.Builder
+	sb.WriteString("[")
+	for i := 0; i < c.Elems; i++ {
+		if i > 0 {
+			sb.WriteString(",")
+		}
+		fmt.Fprintf(&sb, "%7d", 1000000+i)
+	}
+	sb.WriteString("]\n")
+	big := filepath.Join(dir, "big.json")
+	os.WriteFile(big, []byte(sb.String()), 0o644)
+	fifo := filepath.Join(dir, "first.fifo")
+	if err := syscall.Mkfifo(fifo, 0o644); err != nil {
+		o.Class, o.Msg = "harness", err.Error()
+		return finish()
+	}
+	so, _ := os.Create(filepath.Join(dir, "stdout.txt"))
+	se, _ := os.Create(filepath.Join(dir, "stderr.txt"))
+	defer so.Close()
+	defer se.Close()
+	cmd := exec.Command(jqawkBin(), c.Prog, "first.fifo", "big.json")
+	cmd.Dir = dir
+	dn, _ := os.Open(os.DevNull)
+	defer dn.Close()
+	cmd.Stdin, cmd.Stdout, cmd.Stderr = dn, so, se
+	cmd.Env = []string{"PATH=/usr/bin:/bin", "HOME=" + dir}
+	if err := cmd.Start(); err != nil {
+		o.Class, o.Msg = "harness", err.Error()
+		return finish()
+	}
+	pid := cmd.Process.Pid
+	exited := make(chan error, 1)
+	go func() { exited <- cmd.Wait() }()
+	deadline := time.Now().Add(60 * time.Second)
+	var w *os.File
+	done := false
+	var werr error
+	for w == nil && !done {
+		fd, err := syscall.Open(fifo, syscall.O_WRONLY|syscall.O_NONBLOCK, 0)
+		if err == nil {
+			syscall.SetNonblock(fd, false)
+			w = os.NewFile(uintptr(fd), "first.fifo")
+			break
+		}
+		select {
+		case werr = <-exited:
+			done = true
+		default:
+		}
+		if time.Now().After(deadline) {
+			cmd.Process.Kill()
+			<-exited
+			o.Class, o.Msg = "harness", "the binary never opened the named pipe"
+			return finish()
+		}
+		time.Sleep(200 * time.Microsecond)
+	}
+	// wait until the binary holds big.json open and waits for the pipe
+	holdsBig := func() bool {
+		ents, _ := os.ReadDir(fmt.Sprintf("/proc/%d/fd", pid))
+		for _, e := range ents {
+			if l, err := os.Readlink(fmt.Sprintf("/proc/%d/fd/%s", pid, e.Name())); err == nil && strings.HasSuffix(l, "/big.json") {
+				return true
+			}
+		}
+		return false
+	}
+	for !done {
+		_, polling, idle, alive := blockedInRead(pid)
+		if alive && idle && polling && holdsBig() {
+			break
+		}
+		select {
+		case werr = <-exited:
+			done = true
+		default:
+		}
+		if time.Now().After(deadline) {
+			break
+		}
+		time.Sleep(200 * time.Microsecond)
+	}
+	if !done {
+		if err := os.Truncate(big, int64(c.NewSize)); err == nil {
+			o.Faults["input_file_truncated_while_open"]++
+		}
+		log.add('F', 0, "TRUNCATE big.json to %d bytes", c.NewSize)
+	}
+	if w != nil {
+		w.Write([]byte("[1]\n"))
+		w.Close()
+	}
+	if !done {
+		select {
+		case werr = <-exited:
+		case <-time.After(time.Until(deadline)):
+			cmd.Process.Kill()
+			<-exited
+			o.Class, o.Msg = "harness", "binary exceeded the watchdog"
+			return finish()
+		}
+	}
+	errb, _ := os.ReadFile(filepath.Join(dir, "stderr.txt"))
+	exit, signaled := 0, false
+	if ee, ok := werr.(*exec.ExitError); ok {
+		exit = ee.ExitCode()
+		if ws, ok := ee.Sys().(syscall.WaitStatus); ok && ws.Signaled() {
+			signaled = true
+		}
+	}
+	log.add('P', 0, "EXIT status=%d signaled=%v", exit, signaled)
+	o.Shape = fmt.Sprintf("shrink|%d|%d|exit=%d", bucketLen(c.Elems), bucketLen(c.NewSize), exit)
+	if signaled || crashSignature(string(errb)) {
+		o.Class, o.Msg = "process-crash", fmt.Sprintf("the binary died (exit %d, signaled=%v) after big.json was truncated to %d bytes under it: %s", exit, signaled, c.NewSize, truncate(string(errb), 400))
+		return finish()
+	}
+	if exit != 0 && strings.TrimSpace(string(errb)) == "" {
+		o.Class, o.Msg = "silent-failure", fmt.Sprintf("exit status %d without a diagnostic", exit)
+	}
+	return finish()
+}
+
+func shrinkWorkload(count map[string]int) *Workload {
+	return &Workload{
+		Name:  "input-shrinks",
+		Count: func(tier string) int { return count[tier] },
+		Gen: func(i int, t *Tape, tier string) any {
+			elems := []int{100, 5000, 9000, 20000, 70000}[t.Draw(5)]
+			size := elems*8 + 2
+			return &ShrinkCase{Elems: elems, NewSize: []int{0, 1, 9, size / 2, size - 3, 4096, 65536}[t.Draw(7)] % size, Prog: []string{"{ n++ } END { print n }", "{ print }", "END { print $ }", "BEGINFILE { print $file } { s += $ } ENDFILE { print s }"}[t.Draw(4)]}
+		},
+		Run:         func(c any, keep bool) Outcome { return runShrinkCase(c.(*ShrinkCase), keep) },
+		New:         func() any { return &ShrinkCase{} },
+		NoRecheck:   true,
+		ShrinkEvals: 20,
+	}
+}
